@@ -1217,10 +1217,13 @@ theorem Reach.reachT {sub : Subject σ Op} {s0 s : Sys σ Op} (hr : Reach sub s0
 
 /-! ## The helper discipline (generic invariant)
 
-    `condOf op = some c` says: operation `op` may park, and then on condition `c`, after having
-    started a helper goroutine for `c`. The invariant: a parked thread is inside such an operation;
-    while its context is live its helper is `Fresh`; once its context is cancelled and it is (still)
-    parked, its helper is `Pending` — so its broadcast is still to come. -/
+    `condOf σ op = some c` says: in subject state `σ` operation `op` may park, and then on
+    condition `c`, after having started a helper goroutine for `c`. (For most subjects `condOf`
+    ignores `σ`; a subject whose condition depends on its state — a cursor — must show that the
+    condition of a waiting thread is stable under the other threads' segments, `AgreeOn`.)
+    The invariant: a parked thread is inside such an operation; while its context is live its
+    helper is `Fresh`; once its context is cancelled and it is (still) parked, its helper is
+    `Pending` — so its broadcast is still to come. -/
 
 structure ThDisc (condOf : Op → Option Nat) (th : Th Op) : Prop where
   op_of_parked : ∀ c, th.st = .parked c → ∃ op, th.ops[th.pc]? = some op ∧ condOf op = some c
@@ -1228,8 +1231,23 @@ structure ThDisc (condOf : Op → Option Nat) (th : Th Op) : Prop where
     ∀ op c, th.ops[th.pc]? = some op → condOf op = some c → Fresh c th.helpers
   pending : ∀ c, th.st = .parked c → th.cancelled = true → Pending c th.helpers
 
-def HelperInv (condOf : Op → Option Nat) (s : Sys σ Op) : Prop :=
-  ∀ (u : Nat) (th : Th Op), s.ths[u]? = some th → ThDisc condOf th
+def HelperInv (condOf : σ → Op → Option Nat) (s : Sys σ Op) : Prop :=
+  ∀ (u : Nat) (th : Th Op), s.ths[u]? = some th → ThDisc (condOf s.subj) th
+
+/-- `g` agrees with `f` on the operation a waiting (woken or parked) thread is in -/
+def AgreeOn (f g : Op → Option Nat) (th : Th Op) : Prop :=
+  (th.st = .woken ∨ ∃ c, th.st = .parked c) → ∀ op, th.ops[th.pc]? = some op → g op = f op
+
+theorem AgreeOn.rfl {f : Op → Option Nat} {th : Th Op} : AgreeOn f f th := fun _ _ _ => Eq.refl _
+
+theorem ThDisc.congr {f g : Op → Option Nat} {th : Th Op} (h : ThDisc f th) (hag : AgreeOn f g th) :
+    ThDisc g th := by
+  refine ⟨?_, ?_, h.pending⟩
+  · intro c hc
+    obtain ⟨op, hop, hf⟩ := h.op_of_parked c hc
+    exact ⟨op, hop, by rw [hag (Or.inr ⟨c, hc⟩) op hop]; exact hf⟩
+  · intro hst hcan op c hop hg
+    exact h.fresh hst hcan op c hop (by rw [← hag hst op hop]; exact hg)
 
 theorem ThDisc.of_inactive {condOf : Op → Option Nat} {th : Th Op} (h1 : th.st ≠ .woken)
     (h2 : ∀ c, th.st ≠ .parked c) : ThDisc condOf th :=
@@ -1252,7 +1270,13 @@ theorem ThDisc.wake {condOf : Op → Option Nat} {th th' : Th Op} (h : ThDisc co
     intro _ hcan op c' hop hcond
     exact h.fresh (Or.inr ⟨c, hc⟩) hcan op c' hop hcond
 
-theorem initSys_helperInv (condOf : Op → Option Nat) (init : σ) (programs : List (List Op)) :
+theorem AgreeOn.wake {f g : Op → Option Nat} {th th' : Th Op} (h : AgreeOn f g th) (w : ThWake th th') :
+    AgreeOn f g th' := by
+  rcases w with rfl | ⟨hp, rfl⟩
+  · exact h
+  · intro _ op hop; exact h (Or.inr hp) op hop
+
+theorem initSys_helperInv (condOf : σ → Op → Option Nat) (init : σ) (programs : List (List Op)) :
     HelperInv condOf (initSys init programs) := by
   intro u th hth
   simp only [initSys, List.getElem?_map] at hth
@@ -1267,17 +1291,32 @@ theorem initSys_helperInv (condOf : Op → Option Nat) (init : σ) (programs : L
       show (if p = [] then TState.done else TState.idle) ≠ _
       split <;> simp
 
-/-- the side condition a subject has to establish for a segment that parks -/
-def ParkOK (condOf : Op → Option Nat) (th0 : Th Op) (op : Op) (o : SegOut σ) : Prop :=
+/-- the side condition a subject has to establish for a segment that parks (`f` = `condOf` in the
+    state before the segment, `g` = after): the context is live, the operation waits on the
+    condition it parks on, and its helper was started in this segment or — on a re-park — it is
+    the condition the thread was already waiting on -/
+def ParkOK (f g : Op → Option Nat) (th0 : Th Op) (op : Op) (o : SegOut σ) : Prop :=
   ∀ c, o.fin = .park c →
-    th0.cancelled = false ∧ condOf op = some c ∧ Sig.release ∉ o.sigs ∧ (th0.st = .idle → Sig.spawn c ∈ o.sigs)
+    th0.cancelled = false ∧ g op = some c ∧ Sig.release ∉ o.sigs ∧
+      (Sig.spawn c ∈ o.sigs ∨ (th0.st = .woken ∧ f op = some c))
 
-theorem HelperInv.step {condOf : Op → Option Nat} {sub : Subject σ Op} {s s' : Sys σ Op} {a : Act} {obs : String}
-    (hinv : HelperInv condOf s) (hwf : s.WF) (hen : a ∈ enabled s true) (hs : step sub s a = some (s', obs))
-    (hpark : ∀ t th0 op o, IsSeg sub s t a th0 op o → ParkOK condOf th0 op o) : HelperInv condOf s' := by
+/-- the other threads' conditions are not changed by a segment of thread `t` -/
+def Stable (condOf : σ → Op → Option Nat) (s : Sys σ Op) (t : Nat) (o : SegOut σ) : Prop :=
+  ∀ (u : Nat) (thu : Th Op), u ≠ t → s.ths[u]? = some thu → AgreeOn (condOf s.subj) (condOf o.st) thu
+
+/-- a state-independent `condOf` is stable -/
+theorem stable_const (f : Op → Option Nat) (s : Sys σ Op) (t : Nat) (o : SegOut σ) :
+    Stable (fun _ => f) s t o := fun _ _ _ _ => AgreeOn.rfl
+
+theorem HelperInv.step {condOf : σ → Op → Option Nat} {sub : Subject σ Op} {s s' : Sys σ Op} {a : Act}
+    {obs : String} (hinv : HelperInv condOf s) (hwf : s.WF) (hen : a ∈ enabled s true)
+    (hs : step sub s a = some (s', obs))
+    (hpark : ∀ t th0 op o, IsSeg sub s t a th0 op o → ParkOK (condOf s.subj) (condOf o.st) th0 op o)
+    (hstable : ∀ t th0 op o, IsSeg sub s t a th0 op o → Stable condOf s t o) : HelperInv condOf s' := by
   have seg : ∀ t, (a = .start t ∨ a = .resume t) → HelperInv condOf s' := by
     intro t ha u th' hth'
     obtain ⟨th0, op, o, hseg, r⟩ := step_seg hwf hen hs ha
+    rw [r.subj]
     by_cases hut : u = t
     · subst hut
       rw [r.self] at hth'; cases hth'
@@ -1294,19 +1333,20 @@ theorem HelperInv.step {condOf : Op → Option Nat} {sub : Subject σ Op} {s s' 
           rw [hop] at hop'; cases hop'
           rw [hcond] at hcond'; cases hcond'
           simp only
-          rcases hiw with hi | hw
-          · exact fresh_of_spawn hnr (hsp hi) _
+          rcases hsp with hsp | ⟨hw, hf⟩
+          · exact fresh_of_spawn hnr hsp _
           · apply Fresh.sigHelpers hnr
-            exact (hinv u th0 (hseg.of_woken hw).2.1).fresh (Or.inl hw) hcan op c hop hcond
+            exact (hinv u th0 (hseg.of_woken hw).2.1).fresh (Or.inl hw) hcan op c hop hf
         · intro c' _ hcan'; simp only at hcan'; rw [hcan] at hcan'; cases hcan'
     · obtain ⟨th, hth, w⟩ := r.other_inv hut hth'
-      exact (hinv u th hth).wake w
+      exact ((hinv u th hth).congr (hstable t th0 op o hseg u th hut hth)).wake w
   cases a with
   | start t => exact seg t (Or.inl rfl)
   | resume t => exact seg t (Or.inr rfl)
   | cancel t =>
-    obtain ⟨th, hth, hst, hcan, _, _, hself, hoth⟩ := step_cancel_rel hwf hen hs
+    obtain ⟨th, hth, hst, hcan, _, hsubj, hself, hoth⟩ := step_cancel_rel hwf hen hs
     intro u th' hth'
+    rw [hsubj]
     by_cases hut : u = t
     · subst hut
       rw [hself] at hth'; cases hth'
@@ -1317,8 +1357,9 @@ theorem HelperInv.step {condOf : Op → Option Nat} {sub : Subject σ Op} {s s' 
       exact pending_gateAll.2 (hd.fresh hst hcan op c hop hcond).live
     · rw [hoth u hut] at hth'; exact hinv u th' hth'
   | fire t =>
-    obtain ⟨th, h0, hth, hf, _, _, hself, hoth⟩ := step_fire_rel hwf hs
+    obtain ⟨th, h0, hth, hf, _, hsubj, hself, hoth⟩ := step_fire_rel hwf hs
     intro u th' hth'
+    rw [hsubj]
     by_cases hut : u = t
     · subst hut
       rw [hself] at hth'; cases hth'
@@ -1356,7 +1397,7 @@ theorem HelperInv.step {condOf : Op → Option Nat} {sub : Subject σ Op} {s s' 
 
 /-- at quiescence a parked thread's context is live: were it cancelled, its helper would be at
     its gate and `fire` would be enabled -/
-theorem HelperInv.not_cancelled {condOf : Op → Option Nat} {s : Sys σ Op} (hinv : HelperInv condOf s)
+theorem HelperInv.not_cancelled {condOf : σ → Op → Option Nat} {s : Sys σ Op} (hinv : HelperInv condOf s)
     (q : Quiescent s) {u : Nat} {th : Th Op} (hth : s.ths[u]? = some th) {c : Nat} (hp : th.st = .parked c) :
     th.cancelled = false := by
   cases hcan : th.cancelled with
@@ -1378,11 +1419,11 @@ def ThWit (condOf : Op → Option Nat) (c : Nat) (th : Th Op) : Prop :=
   (th.st = .woken ∧ (∃ op, th.ops[th.pc]? = some op ∧ condOf op = some c) ∧ Live c th.helpers) ∨
   Pending c th.helpers
 
-def Wit (condOf : Op → Option Nat) (s : Sys σ Op) (c : Nat) : Prop :=
-  ∃ (u : Nat) (th : Th Op), s.ths[u]? = some th ∧ ThWit condOf c th
+def Wit (condOf : σ → Op → Option Nat) (s : Sys σ Op) (c : Nat) : Prop :=
+  ∃ (u : Nat) (th : Th Op), s.ths[u]? = some th ∧ ThWit (condOf s.subj) c th
 
 /-- a witness is an enabled internal action -/
-theorem Wit.not_quiescent {condOf : Op → Option Nat} {s : Sys σ Op} {c : Nat} (w : Wit condOf s c) :
+theorem Wit.not_quiescent {condOf : σ → Op → Option Nat} {s : Sys σ Op} {c : Nat} (w : Wit condOf s c) :
     ¬ Quiescent s := by
   intro q
   obtain ⟨u, th, hth, hw | hp⟩ := w
@@ -1403,16 +1444,17 @@ theorem SegRel.parkedOn_inv {s s' : Sys σ Op} {t : Nat} {o : SegOut σ} {th0 : 
     exact Or.inl ⟨u, th', hut, this, hp, hth'⟩
 
 /-- a witness survives every step, unless nobody is parked on `c` any more, or the step is the
-    resumption of a thread (inside an operation waiting on `c`) that parked again -/
-theorem Wit.step {condOf : Op → Option Nat} {sub : Subject σ Op} {s s' : Sys σ Op} {a : Act} {obs : String}
-    {c : Nat} (w : Wit condOf s c) (hwf : s.WF) (hen : a ∈ enabled s true) (hs : step sub s a = some (s', obs)) :
+    resumption of a thread (inside an operation that was waiting on `c`) that parked again -/
+theorem Wit.step {condOf : σ → Op → Option Nat} {sub : Subject σ Op} {s s' : Sys σ Op} {a : Act} {obs : String}
+    {c : Nat} (w : Wit condOf s c) (hwf : s.WF) (hen : a ∈ enabled s true) (hs : step sub s a = some (s', obs))
+    (hstable : ∀ t th0 op o, IsSeg sub s t a th0 op o → Stable condOf s t o) :
     Wit condOf s' c ∨ ¬ ParkedOn s' c ∨
       ∃ (t : Nat) (th' : Th Op) (op : Op) (c' : Nat), a = .resume t ∧ s'.ths[t]? = some th' ∧
-        th'.st = .parked c' ∧ th'.ops[th'.pc]? = some op ∧ condOf op = some c := by
+        th'.st = .parked c' ∧ th'.ops[th'.pc]? = some op ∧ condOf s.subj op = some c := by
   obtain ⟨u, th, hth, hw⟩ := w
   have seg : ∀ t, (a = .start t ∨ a = .resume t) → (Wit condOf s' c ∨ ¬ ParkedOn s' c ∨
       ∃ (t : Nat) (th' : Th Op) (op : Op) (c' : Nat), a = .resume t ∧ s'.ths[t]? = some th' ∧
-        th'.st = .parked c' ∧ th'.ops[th'.pc]? = some op ∧ condOf op = some c) := by
+        th'.st = .parked c' ∧ th'.ops[th'.pc]? = some op ∧ condOf s.subj op = some c) := by
     intro t ha
     obtain ⟨th0, op, o, hseg, r⟩ := step_seg hwf hen hs ha
     by_cases hut : u = t
@@ -1441,16 +1483,19 @@ theorem Wit.step {condOf : Op → Option Nat} {sub : Subject σ Op} {s s' : Sys 
     · left
       obtain ⟨th', hth', wk⟩ := r.other u th hut hth
       refine ⟨u, th', hth', ?_⟩
-      rcases hw with ⟨hwk, hop, hlive⟩ | hpend
+      rcases hw with ⟨hwk, ⟨op', hop', hcond⟩, hlive⟩ | hpend
       · have := wk.eq_of_not_parked (by intro c; rw [hwk]; simp)
-        subst this; exact Or.inl ⟨hwk, hop, hlive⟩
+        subst this
+        refine Or.inl ⟨hwk, ⟨op', hop', ?_⟩, hlive⟩
+        rw [r.subj, hstable t th0 op o hseg u th' hut hth (Or.inl hwk) op' hop']; exact hcond
       · exact Or.inr (by rw [wk.helpers]; exact hpend)
   cases a with
   | start t => exact seg t (Or.inl rfl)
   | resume t => exact seg t (Or.inr rfl)
   | cancel t =>
     left
-    obtain ⟨tht, htht, _, _, _, _, hself, hoth⟩ := step_cancel_rel hwf hen hs
+    obtain ⟨tht, htht, _, _, _, hsubj, hself, hoth⟩ := step_cancel_rel hwf hen hs
+    unfold Wit; rw [hsubj]
     by_cases hut : u = t
     · subst hut
       rw [hth] at htht; cases htht
@@ -1460,7 +1505,7 @@ theorem Wit.step {condOf : Op → Option Nat} {sub : Subject σ Op} {s s' : Sys 
       · exact Or.inr (pending_gateAll.2 hpend.live)
     · exact ⟨u, th, by rw [hoth u hut]; exact hth, hw⟩
   | fire t =>
-    obtain ⟨tht, h0, htht, hf, _, _, hself, hoth⟩ := step_fire_rel hwf hs
+    obtain ⟨tht, h0, htht, hf, _, hsubj, hself, hoth⟩ := step_fire_rel hwf hs
     by_cases hc0 : h0.cond = c
     · -- the fired helper broadcasts `c`: nobody stays parked on `c`
       right; left
@@ -1476,6 +1521,7 @@ theorem Wit.step {condOf : Op → Option Nat} {sub : Subject σ Op} {s s' : Sys 
           simp [h1] at hthv; subst hthv
           rw [hc0] at hpv; exact Th.bwake_st_ne c _ hpv
     · left
+      unfold Wit; rw [hsubj]
       by_cases hut : u = t
       · subst hut
         rw [hth] at htht; cases htht
@@ -1493,12 +1539,14 @@ theorem Wit.step {condOf : Op → Option Nat} {sub : Subject σ Op} {s s' : Sys 
         · right; simpa using hpend
 
 /-- a `Signal` on `c` while somebody (other than the signaller) is parked on `c` creates a witness -/
-theorem Wit.of_signal {condOf : Op → Option Nat} {s s' : Sys σ Op} {t : Nat} {o : SegOut σ} {th0 : Th Op}
-    (hinv : HelperInv condOf s) (r : SegRel s s' t o th0) {c : Nat} (hc : Sig.signal c ∈ o.sigs)
+theorem Wit.of_signal {condOf : σ → Op → Option Nat} {s s' : Sys σ Op} {t : Nat} {o : SegOut σ} {th0 : Th Op}
+    (hinv : HelperInv condOf s) (r : SegRel s s' t o th0) (hstable : Stable condOf s t o) {c : Nat}
+    (hc : Sig.signal c ∈ o.sigs)
     (hp : ∃ (u : Nat) (th : Th Op), u ≠ t ∧ s.ths[u]? = some th ∧ th.st = .parked c) : Wit condOf s' c := by
-  obtain ⟨w, thw, _, hthw, hstw, hw'⟩ := r.signal c hc hp
-  have hd := hinv w thw hthw
-  exact ⟨w, _, hw', Or.inl ⟨rfl, by simpa using hd.op_of_parked c hstw, by simpa using hd.live hstw⟩⟩
+  obtain ⟨w, thw, hwt, hthw, hstw, hw'⟩ := r.signal c hc hp
+  have hd := (hinv w thw hthw).congr (hstable w thw hwt hthw)
+  refine ⟨w, _, hw', Or.inl ⟨rfl, ?_, by simpa using hd.live hstw⟩⟩
+  rw [r.subj]; simpa using hd.op_of_parked c hstw
 
 /-- `cancel` and `fire` park nobody -/
 theorem parkedOn_of_cancel_fire {sub : Subject σ Op} {s s' : Sys σ Op} {a : Act} {obs : String} {t : Nat}
